@@ -546,3 +546,95 @@ def k5(proj, rep, modules):
                     rep.ok('K5', mq, f'`{ast.unparse(c)[:50]}...` which={ast.unparse(w)}', m, c)
     rep.count('K5.eigsh_calls', n)
     return n
+
+
+# ------------------------------------------------------------------------------------------------ AL2
+RULE_AL2 = ('AL2: an array that is handed to a callable received as a parameter (a user function) inside a loop, whose results are collected, is created '
+            'inside the loop body: the callable may return its argument or a view of it (identity channel, slicing permutation, `if rate==0: return '
+            'rho`), so a buffer that is re-used and modified in later iterations silently changes every result collected so far.')
+
+
+def al2(proj, rep, modules):
+    rep.rule('AL2', RULE_AL2)
+    n = 0
+    for mq in modules:
+        m = proj.mod(mq)
+        rep.touch(m)
+        for fi in [f for f in proj.funcs.values() if f.module is m]:
+            params = set(fi.all_params)
+            for lp in [x for x in ast.walk(fi.node) if isinstance(x, ast.For)]:
+                # innermost loops only
+                if any(isinstance(y, ast.For) and y is not lp for y in ast.walk(lp)):
+                    continue
+                calls = [c for s in lp.body for c in ast.walk(s) if isinstance(c, ast.Call) and isinstance(c.func, ast.Name) and c.func.id in params
+                         and c.args and isinstance(c.args[0], ast.Name)]
+                for c in calls:
+                    # result collected?
+                    st = c
+                    while not isinstance(st, ast.stmt):
+                        st = st._parent
+                    collected = 'append(' in ast.unparse(st) or (isinstance(st, ast.Assign) and isinstance(st.targets[0], ast.Subscript))
+                    if not collected:
+                        continue
+                    buf = c.args[0].id
+                    # the buffer is mutated in the loop?
+                    mut = any(isinstance(y, ast.Assign) and isinstance(y.targets[0], ast.Subscript) and isinstance(y.targets[0].value, ast.Name) and y.targets[0].value.id == buf
+                              for s in lp.body for y in ast.walk(s))
+                    if not mut:
+                        continue
+                    n += 1
+                    created_inside = any(isinstance(s, ast.Assign) and isinstance(s.targets[0], ast.Name) and s.targets[0].id == buf for s in lp.body)
+                    if created_inside:
+                        rep.ok('AL2', fi.qual, f'`{buf}` is allocated for every call of `{c.func.id}`', m, c)
+                    else:
+                        rep.violation('AL2', fi.qual, f'`{ast.unparse(c)}`: the probe `{buf}` is allocated once outside the loop and modified between calls; if the user '
+                                      f'callable `{c.func.id}` returns its argument (identity channel) or a view of it, every collected result aliases the buffer', m, c)
+    rep.count('AL2.probe_calls', n)
+    return n
+
+
+# ------------------------------------------------------------------------------------------------ MD1
+RULE_MD1 = ('MD1: no function or method has a mutable default argument (list / dict / set literal or constructor call) that is stored in an attribute, '
+            'returned, or modified in place: the default object is created once, so every call (every instance built with the default) shares it - '
+            'a gate history appended to one circuit shows up in the next.')
+
+
+def md1(proj, rep, modules):
+    rep.rule('MD1', RULE_MD1)
+    n = 0
+    for mq in modules:
+        m = proj.mod(mq)
+        rep.touch(m)
+        for fn in [x for x in ast.walk(m.tree) if isinstance(x, (ast.FunctionDef, ast.AsyncFunctionDef))]:
+            a = fn.args
+            pos = a.posonlyargs + a.args
+            pairs = list(zip(pos[len(pos) - len(a.defaults):], a.defaults)) + [(p, d) for p, d in zip(a.kwonlyargs, a.kw_defaults) if d is not None]
+            if not pairs:
+                continue
+            n += 1
+            bad = None
+            for p, d in pairs:
+                mutable = isinstance(d, (ast.List, ast.Dict, ast.Set)) or (isinstance(d, ast.Call) and isinstance(d.func, ast.Name) and d.func.id in ('list', 'dict', 'set'))
+                if not mutable:
+                    continue
+                name = p.arg
+                escapes = False
+                for x in ast.walk(fn):
+                    if isinstance(x, ast.Assign) and isinstance(x.value, ast.Name) and x.value.id == name and any(isinstance(t, ast.Attribute) for t in x.targets):
+                        escapes = True
+                    if isinstance(x, ast.Return) and isinstance(x.value, ast.Name) and x.value.id == name:
+                        escapes = True
+                    if isinstance(x, ast.Call) and isinstance(x.func, ast.Attribute) and x.func.attr in ('append', 'extend', 'update', 'add', 'insert', 'pop') \
+                            and isinstance(x.func.value, ast.Name) and x.func.value.id == name:
+                        escapes = True
+                    if isinstance(x, ast.Assign) and isinstance(x.targets[0], ast.Subscript) and isinstance(x.targets[0].value, ast.Name) and x.targets[0].value.id == name:
+                        escapes = True
+                if escapes:
+                    bad = (name, d)
+            if bad:
+                rep.violation('MD1', f'{mq}.{fn.name}', f'parameter `{bad[0]}={ast.unparse(bad[1])}` is a mutable default that is stored / returned / modified: all calls that '
+                              f'use the default share one object', m, fn)
+            else:
+                rep.ok('MD1', f'{mq}.{fn.name}', 'no shared mutable default', m, fn, text=f'{mq}.{fn.name} defaults')
+    rep.count('MD1.functions_with_defaults', n)
+    return n
